@@ -326,14 +326,112 @@ def histories(run, rng, n, length):
     run.sample({"history_case": calls})
 
 
+def interleaved(run, rng, n):
+    """call histories with DEFERRED computation: a lazy result is built, other calls (same func, other dtypes / options)
+    are made, and only then is it computed; each deferred result and the last call must equal the same call made alone
+    in a FRESH interpreter"""
+    from concurrent.futures import ThreadPoolExecutor
+
+    from tools.lib import histcall as H
+
+    ranges = {"float64": 3, "float32": 3, "int8": 60, "int16": 300, "int64": 1000, "uint8": 100, "bool": 1}
+    jobs = []
+    for _ in range(n):
+        focus_kind = rng.choice(["scan", "reduce"])
+        focus_func = rng.choice(["nancumsum"] if focus_kind == "scan" else ["sum", "nansum", "mean", "max", "var", "prod", "nanfirst", "argmax", "count"])
+        calls = []
+        for _j in range(rng.randint(3, 6)):
+            m = rng.randint(4, 10)
+            kind, func = (focus_kind, focus_func) if rng.random() < 0.7 else rng.choice(
+                [("scan", "nancumsum"), ("scan", "ffill"), ("scan", "bfill"), ("reduce", "sum"), ("reduce", "nanmax"), ("reduce", "mean"), ("reduce", "count")])
+            dt = rng.choice(list(ranges)) if func not in ("ffill", "bfill") else rng.choice(["float64", "float32"])
+            if dt == "bool" and func in ("mean", "var", "prod", "argmax", "nanfirst"):
+                dt = "int8"
+            r = ranges[dt]
+            vals = [rng.randint(0 if dt in ("uint8", "bool") else -r, r) for _ in range(m)]
+            if dt.startswith("float"):
+                vals = [float(x) / rng.choice([1, 2, 4]) for x in vals]
+                if func in ("ffill", "bfill", "nancumsum", "nansum") and rng.random() < 0.6:
+                    vals[rng.randrange(m)] = float("nan")
+            chunks = list(G.random_composition(rng, m, 4)) if rng.random() < 0.8 else None
+            c = {"kind": kind, "func": func, "dtype": dt, "vals": vals, "labels": [rng.randrange(3) for _ in range(m)], "chunks": chunks,
+                 "method": rng.choice([None, "map-reduce", "cohorts"]) if chunks and kind == "reduce" else None,
+                 "deferred": bool(chunks) and rng.random() < 0.6}
+            if func == "var":
+                c["ddof"] = rng.choice([0, 1])
+            if kind == "reduce" and rng.random() < 0.2 and func in ("sum", "nansum", "max", "nanmax"):
+                c["out_dtype"] = rng.choice(["float32", "int64", "float64"])
+            calls.append(c)
+        got = {}
+        lazy = {}
+        with warnings.catch_warnings():
+            warnings.simplefilter("ignore")
+            for i, c in enumerate(calls):
+                try:
+                    r = H.build(c)
+                    if c["deferred"]:
+                        lazy[i] = r
+                    else:
+                        got[i] = H.canon(H.compute(r))
+                except (ValueError, NotImplementedError) as e:
+                    got[i] = ["refused", type(e).__name__]
+            order = list(lazy)
+            rng.shuffle(order)
+            for i in order:
+                try:
+                    got[i] = H.canon(H.compute(lazy[i]))
+                except (ValueError, NotImplementedError) as e:
+                    got[i] = ["refused", type(e).__name__]
+                except Exception as e:  # noqa: BLE001
+                    got[i] = ["internal error", repr(e)[:200]]
+        targets = (sorted(lazy)[:2] + [len(calls) - 1])
+        for t in dict.fromkeys(targets):
+            jobs.append((calls, t, got[t]))
+        run.count(f"inter|{json.dumps(calls, sort_keys=True)}", len(lazy) >= 1 and len({c['dtype'] for c in calls}) >= 2)
+
+    def fresh(job):
+        calls, t, _ = job
+        rc, txt = C.sh([C.PY, "-m", "tools.lib.histcall", json.dumps(calls[t])], timeout=600, cwd=str(C.ROOT))
+        for line in reversed(txt.strip().splitlines()):
+            if line.startswith("RESULT "):
+                return json.loads(line[7:])
+        return ["fresh process failed", txt[-300:]]
+
+    with ThreadPoolExecutor(8) as ex:
+        fresh_results = list(ex.map(fresh, jobs))
+    for (calls, t, g), f in zip(jobs, fresh_results):
+        if f and f[0] == "fresh process failed":
+            run.violation({"property": "C14", "kind": "fresh-process replay failed", "call": calls[t], "output": f[1]}, tag="inter")
+        elif g != f:
+            run.violation({"property": "C14", "kind": "result depends on the calls made between building a lazy result and computing it "
+                           "(or before it): it differs from the same call made alone in a fresh interpreter",
+                           "history": calls, "target_index": t, "in_history [dtype, values]": g, "fresh_process [dtype, values]": f,
+                           "how_to_run": "tools/lib/histcall.py: build() every call in order, compute() the non-deferred ones at once and "
+                                         "the deferred ones at the end; compare with `python -m tools.lib.histcall '<call json>'`"}, tag="inter")
+    if jobs:
+        run.sample({"interleaved_history": jobs[-1][0]})
+    run.extra["interleaved_targets_checked_against_fresh_process"] = len(jobs)
+
+
 def run(run: C.Run):
     rng = random.Random(run.seed)
     ok = P.front(run, translators=("registry", "tokens"))
     thorough = run.tier == "thorough"
+    reg_start = snapshot_registry()          # before ANY flox API call of this process
     cocompute_pairs(run, rng, 2500 if thorough else 400)
     scan_pairs(run, rng, 300 if thorough else 50)
     side_effects(run, rng, 1500 if thorough else 250)
     histories(run, rng, 60 if thorough else 8, 12 if thorough else 6)
+    interleaved(run, rng, 120 if thorough else 14)
+    reg_end = snapshot_registry()
+    changed = [k for k in reg_start if reg_start[k] != reg_end.get(k)] + [k for k in reg_end if k not in reg_start]
+    run.oblige("runtime:registry AGGREGATIONS at the end of the whole run identical to the registry right after import", not changed, str(changed))
+    if changed:
+        k = changed[0]
+        diff = {a: [reg_start.get(k, {}).get(a), reg_end.get(k, {}).get(a)] for a in set(reg_start.get(k, {})) | set(reg_end.get(k, {}))
+                if reg_start.get(k, {}).get(a) != reg_end.get(k, {}).get(a)}
+        run.violation({"property": "C14", "kind": "the registry of aggregations was modified by API calls", "changed_entries": changed,
+                       "first_changed_entry": k, "attributes [after import, after the calls]": diff}, tag="reg")
     if any(not o[1] for o in run.obligations) and not run.violations:
         text = ("From Coq Require Import String List.\nFrom Flox Require Import TokensGen Tokens.\nImport ListNotations.\n"
                 "Eval vm_compute in (filter (fun x => negb (mem x token_args)) (expand derived_params flowing_params), "
